@@ -427,7 +427,8 @@ class ExprGen:
         if op in ("row_number", "rank", "dense_rank"):
             return fn(op, **kw), "int"
         if op == "shift":
-            fs = [f for f in ["int", "float", "str"] if self.cols_of(scope, f)]
+            # every column type can be shifted (the static type of the result is the argument's type)
+            fs = [f for f in ["int", "float", "str", "int", "bool", "date", "datetime"] if self.cols_of(scope, f)]
             if not fs:
                 return fn("row_number", **kw), "int"
             f = rng.choice(fs)
@@ -672,9 +673,14 @@ class ProgGen:
             return None
         # keep grouping columns selected (group_by of a hidden column is refused later)
         keep = rng.sample(ids, rng.randint(1, len(ids)))
-        for g in t.group:
-            if g not in keep and g in per:
-                keep.append(g)
+        if rng.random() < 0.75:
+            # mostly keep the grouping columns selected (a later summarize / collect needs them visible); sometimes
+            # they are hidden: window functions and aggregates in mutate keep using them
+            for g in t.group:
+                if g not in keep and g in per:
+                    keep.append(g)
+        elif t.group:
+            self.features.add("hidden_grouping_column")
         tk = [i for i in ids if t.cols[i].name0 == "k"]
         if tk and rng.random() < 0.7 and tk[0] not in keep:
             keep.append(tk[0])
@@ -1034,6 +1040,16 @@ def gen_summarize(seed):
                 second = {"in": h, "out": g.new_handle(), "verb": "group_by", "cols": [g._ref_for(h, i, n) for n, i in ks[1:]], "add": True}
                 if g.try_step(second):
                     h = second["out"]
+            # a second group_by without add= replaces the grouping - also when the new keys overlap the old ones
+            if rng.random() < 0.3:
+                pool = vis if rng.random() < 0.5 else ks
+                ks2 = rng.sample(pool, rng.randint(1, min(2, len(pool))))
+                if rng.random() < 0.6 and ks[0] not in ks2:
+                    ks2 = [ks[0]] + ks2[:1]
+                again = {"in": h, "out": g.new_handle(), "verb": "group_by", "cols": [cname(n) if rng.random() < 0.4 else g._ref_for(h, i, n) for n, i in ks2]}
+                if g.try_step(again):
+                    h = again["out"]
+                    g.features.add("regroup_overlapping")
     st = g.step_summarize(h)
     if g.try_step(st):
         h = st["out"]
@@ -1056,13 +1072,62 @@ def gen_order(seed):
     """C05: arrange chains with markers, row-preserving verbs, slice_head, window functions."""
     g = ProgGen(seed)
     rng = g.rng
-    if rng.random() < 0.22:
+    r0 = rng.random()
+    if r0 < 0.22:
         return _order_sandwich(g)
+    if r0 < 0.32:
+        return _hidden_window_reuse(g)
     h = g.add_table("t", cols=["k", "g", "x", "y", "f", "b", "s"])
     w = {"arrange": 4, "mutate_win": 3, "mutate": 1.5, "filter": 1.5, "slice_head": 1.5, "select": 0.8, "rename": 0.8, "alias": 0.4,
          "group_by": 0.7, "ungroup": 0.7, "mutate_agg": 0.7}
     h = g.chain(h, rng.randint(2, 7), w, depth=1, p_total=rng.choice([0.9, 0.9, 0.5]))
     probes = [s["out"] for s in g.steps if s["verb"] not in ("group_by", "ungroup")][-5:] or [h]
+    return g.finish(probes)
+
+
+def _hidden_window_reuse(g):
+    """A window column is hidden (deselected or overwritten), rows are filtered away, and the hidden column is used
+    again through its original reference: its values must be those computed over the rows before the filter.
+    (On SQL the filter needs a subquery: alias(keep_col_refs=True) before it makes the pipeline acceptable.)"""
+    rng = g.rng
+    h = g.add_table("t", cols=["k", "g", "x", "y", "f", "b", "s"])
+    h0 = h
+    sc = g.scope(h)
+    pb = [col(h0, "g")] if rng.random() < 0.5 else None
+    for _ in range(6):
+        e, _fam = g.eg.window(sc, 1, total_key=g.total_key(h), pb=pb, need_arrange=True)
+        st = {"in": h, "out": g.new_handle(), "verb": "mutate", "kw": [["w", e]]}
+        if g.try_step(st):
+            h = st["out"]
+            break
+    else:
+        return g.finish([h])
+    hw = h
+    g.features.add("hidden_window_reuse")
+    if rng.random() < 0.5:
+        keep = [n for n in g.rr.env[h].names() if n != "w"]
+        st = {"in": h, "out": g.new_handle(), "verb": "select", "cols": [cname(n) for n in keep]}
+    else:
+        st = {"in": h, "out": g.new_handle(), "verb": "mutate", "kw": [["w", fn("add", col(h0, "k"), lit(1))]]}
+    if g.try_step(st):
+        h = st["out"]
+    if rng.random() < 0.75:
+        st = {"in": h, "out": g.new_handle(), "verb": "alias", "keep": True}
+        if g.try_step(st):
+            h = st["out"]
+    # a filter that really removes rows
+    st = {"in": h, "out": g.new_handle(), "verb": "filter", "preds": [fn(rng.choice(["gt", "le"]), col(h0, "k"), lit(rng.choice([1, 2, 3, 5])))]}
+    if g.try_step(st):
+        h = st["out"]
+    st = {"in": h, "out": g.new_handle(), "verb": "mutate", "kw": [["again", col(hw, "w")], ["plus", fn("add", col(hw, "w"), lit(0)) if g.rr.env[hw].cols[g.rr.env[hw].name_to_id()["w"]].fam in ("int", "float") else col(hw, "w")]]}
+    if g.try_step(st):
+        h = st["out"]
+    probes = [h]
+    if rng.random() < 0.5:
+        st = g.step_arrange(h, 0.9)
+        if st is not None and g.try_step(st):
+            h = st["out"]
+            probes.append(h)
     return g.finish(probes)
 
 
@@ -1390,6 +1455,20 @@ def gen_reroot(seed):
     w = dict(REF_WEIGHTS)
     w.update({"group_by": 0.8, "arrange": 1.0, "alias": 0.2, "summarize": 0.2})
     h = g.chain(h0, rng.randint(0, 6), w, depth=1)
+    if rng.random() < 0.18 and not g.rr.env[h].group:
+        # grouped by a column that is hidden afterwards: the grouping must survive the re-rooting
+        t0 = g.rr.env[h]
+        cands = [(n, i) for n, i in t0.vis if t0.cols[i].fam in ("int", "bool", "str") and t0.cols[i].name0 != "k"]
+        if cands and len(t0.vis) >= 3:
+            gn, gi = rng.choice(cands)
+            st = {"in": h, "out": g.new_handle(), "verb": "group_by", "cols": [g._ref_for(h, gi, gn)]}
+            if g.try_step(st):
+                h = st["out"]
+                rest = [cname(n) for n, i in t0.vis if i != gi]
+                st = {"in": h, "out": g.new_handle(), "verb": "select", "cols": rest} if rng.random() < 0.6 else {"in": h, "out": g.new_handle(), "verb": "drop", "cols": [cname(gn)]}
+                if g.try_step(st):
+                    h = st["out"]
+                    g.features.add("hidden_grouping_column")
     before = h
     form = rng.choice(["alias", "alias_name", "alias_keep", "collect", "collect_nokeep", "transfer", "alias_twice"])
     pol_only = form.startswith("collect")
@@ -1436,6 +1515,15 @@ def gen_reroot(seed):
     after = h
     probes = [before, after]
     t = g.rr.env[after]
+    # grouping survives: aggregates / window functions in mutate see the partitions, also for a hidden grouping column
+    if t.group and rng.random() < 0.7:
+        for _ in range(4):
+            st = g.step_mutate(after, ("a", "w"), 1)
+            if st is not None and g.try_step(st):
+                un = g.step_ungroup(st["out"])
+                if un is not None and g.try_step(un):
+                    probes.append(un["out"])
+                break
     # grouping survives: summarize right after
     if t.group and rng.random() < 0.7:
         st = g.step_summarize(after)
@@ -1828,7 +1916,7 @@ def gen_simple(seed):
     return p
 
 
-TYPE_WEIGHTS = {"mutate": 5, "mutate_agg": 1.5, "filter": 1.5, "select": 1, "rename": 0.7, "arrange": 1, "group_by": 1, "ungroup": 0.5, "summarize": 1.5, "alias": 0.3}
+TYPE_WEIGHTS = {"mutate": 5, "mutate_agg": 1.5, "mutate_win": 1.2, "filter": 1.5, "select": 1, "rename": 0.7, "arrange": 1, "group_by": 1, "ungroup": 0.5, "summarize": 1.5, "alias": 0.3}
 
 
 def gen_collide(seed):
@@ -2031,5 +2119,28 @@ def gen_types(seed):
             h = st["out"]
             g.prog["meta"]["skip_backends"] = ["sqlite"]
     h = g.chain(h, rng.randint(0, 2), TYPE_WEIGHTS, depth=1)
+    if rng.random() < 0.4 and not g.rr.env[h].group:
+        # type-preserving window / aggregate functions over every column type (forward and backward shift, with and
+        # without a fill value; min / max keep the type of their argument)
+        t = g.rr.env[h]
+        names = {n: i for n, i in t.vis}
+        keyn = next((n for n in ("k",) if n in names), None)
+        if keyn is not None:
+            arr = [{"e": cname(keyn), "desc": rng.random() < 0.3, "nl": True}]
+            kw = []
+            for n in rng.sample(sorted(names), min(len(names), rng.randint(2, 5))):
+                fam = t.cols[names[n]].fam
+                if fam == "null":
+                    continue
+                off = rng.choice([-2, -1, 1, 2])
+                fill = g.eg.leaf(fam, [], True) if rng.random() < 0.4 and fam in ("int", "float", "bool", "str", "date", "datetime") else lit(None)
+                kw.append([f"sh_{n}"[:12], fn("shift", cname(n), lit(off), fill, arr=arr)])
+                if fam in ("int", "float", "date", "datetime", "str") and rng.random() < 0.5:
+                    kw.append([f"mx_{n}"[:12], fn(rng.choice(["min", "max"]), cname(n), pb=[cname("b")] if "b" in names and rng.random() < 0.5 else None)])
+            if kw:
+                st = {"in": h, "out": g.new_handle(), "verb": "mutate", "kw": kw}
+                if g.try_step(st):
+                    h = st["out"]
+                    g.features.add("typed_window")
     probes = [s["out"] for s in g.steps if s["verb"] not in ("group_by",)][-4:] or [h0]
     return g.finish(probes)
